@@ -21,6 +21,7 @@ import os as _os
 FORK_SITES = {} if _os.environ.get("SYMX_TRACE_FORKS") else None
 BRANCH_TIMEOUT_MS = 2000
 CHECK_TIMEOUT_MS = 20000
+NLSAT_TIMEOUT_MS = 120000
 
 
 class Abort(BaseException):
@@ -263,7 +264,18 @@ class Ctx:
             self.obligations.append(Obligation(label, "sat" if asg is not None else "unknown", asg, note or ("concrete false: " + str(p)[:300]), time.time() - t0))
             return False
         neg = z3.Not(p.z3())
-        r = self._check(neg, timeout=CHECK_TIMEOUT_MS)
+        if self.exp_args:
+            # uninterpreted exp on this path: short attempt with the combined solver, then the exp-abstracted
+            # pure-NRA query with z3's complete procedure (sound for unsat only), then a long combined attempt
+            r = self._check(neg, timeout=3000)
+            if r == z3.unknown:
+                if self.check_abstracted(neg, NLSAT_TIMEOUT_MS) == z3.unsat:
+                    r = z3.unsat
+                    note = (note or "") + " [exp-abstracted nlsat]"
+            if r == z3.unknown:
+                r = self._check(neg, timeout=CHECK_TIMEOUT_MS)
+        else:
+            r = self._check(neg, timeout=CHECK_TIMEOUT_MS)
         if r == z3.unsat:
             self.obligations.append(Obligation(label, "unsat", None, note, time.time() - t0))
             return True
@@ -283,6 +295,20 @@ class Ctx:
             return False
         self.obligations.append(Obligation(label, "unknown", None, note, time.time() - t0))
         return False
+
+    def check_abstracted(self, extra, timeout_ms):
+        """Decide  PC /\\ extra  after replacing every application of the uninterpreted exp by a fresh real variable
+        (an over-approximation: congruence is lost, explicitly added lemmas are kept) with z3's complete NRA procedure."""
+        t = time.time()
+        asserts = list(self.solver.assertions()) + [extra]
+        asserts = abstract_uf(asserts, EXP)
+        s = z3.Tactic("qfnra-nlsat").solver()
+        s.set("timeout", timeout_ms)
+        s.add(*asserts)
+        r = s.check()
+        self.tcheck += time.time() - t
+        self.nchecks += 1
+        return r
 
     def model_assignment(self, m):
         out = OrderedDict()
@@ -986,6 +1012,42 @@ def sym_exp(x):
     c.exp_args.append(a)
     c.model = None
     return SymReal(y)
+
+
+def _uf_apps(e, f, seen, out):
+    if e.get_id() in seen:
+        return
+    seen.add(e.get_id())
+    for ch in e.children():
+        _uf_apps(ch, f, seen, out)
+    if z3.is_app(e) and e.decl().eq(f):
+        out.append(e)
+
+
+def abstract_uf(exprs, f):
+    """replace applications of the unary uninterpreted function f by fresh variables, innermost first"""
+    exprs = list(exprs)
+    k = 0
+    for _ in range(50):
+        apps = []
+        seen = set()
+        for e in exprs:
+            _uf_apps(e, f, seen, apps)
+        if not apps:
+            return exprs
+        # innermost: argument contains no application of f
+        inner = []
+        for a in apps:
+            sub = []
+            _uf_apps(a.arg(0), f, set(), sub)
+            if not sub:
+                inner.append(a)
+        pairs = []
+        for a in inner:
+            k += 1
+            pairs.append((a, z3.Real("uf!%d" % k)))
+        exprs = [z3.substitute(e, *pairs) for e in exprs]
+    raise RuntimeError("abstract_uf: nesting too deep")
 
 
 class SymNorm:
